@@ -38,12 +38,62 @@ def monitor_requests(name, param, conv_trace):
     return ('monitor', [name, param] + toks)
 
 
-def run_monitors(run, section, jobs, what, key):
+def with_silent_ops(jobs):
+    """the implementation trace has no output operations (they go to stdout/stderr); where the model reproduces the run exactly, take
+    the positions of its Out/Log operations so that monitors that look at output (put: reports; restore: listing lines) see them"""
+    reqs, idx = [], []
+    convs = []
+    for j, job in enumerate(jobs):
+        name, param, obs, case = job[:4]
+        conv = tracelevel.convert(obs['trace'])
+        convs.append(conv)
+        scn = case.get('scenario')
+        step = case.get('step')
+        if scn is None or any(a is None for _, a in conv):
+            continue
+        if step is None:
+            step = scn['steps'][case.get('step_index', 0)]
+        b = dict(tracelevel.BUILDERS, put=tracelevel.put_request).get(step['cmd'])
+        rq = b(scn, step, conv) if b else None
+        if rq is None:
+            continue
+        reqs.append(rq[0])
+        idx.append(j)
+    reps = model_batch(reqs) if reqs else []
+    out = [[(o, a) for o, a in c if a is not None and not o.startswith('?')] for c in convs]
+    for j, rep in zip(idx, reps):
+        if rep.startswith('!ERR'):
+            continue
+        ops = rep.split('\t')[0].split(';') if rep.split('\t')[0] else []
+        real = [o for o in ops if not (o.startswith('out:') or o.startswith('log:'))]
+        conv = convs[j]
+        if real[:len(conv)] != [o for o, _ in conv][:len(real)] or len(real) < len(conv):
+            continue                                   # the tie is broken for this run: monitor the bare implementation trace
+        merged, k = [], 0
+        for o in ops:
+            if o.startswith('out:') or o.startswith('log:'):
+                merged.append((o, 'u'))
+            else:
+                if k >= len(conv):
+                    break
+                merged.append((o, conv[k][1]))
+                k += 1
+        out[j] = merged
+    return out
+
+
+def run_monitors(run, section, jobs, what, key, silent=None):
     """jobs: [(name, param, obs, case)] ; the Coq monitor `name` (extracted) must accept the implementation's trace"""
     reqs, metas = [], []
-    for name, param, obs, case in jobs:
-        conv = tracelevel.convert(obs['trace'])
-        conv = [(o, a) for o, a in conv if a is not None and not o.startswith('?')]
+    if silent is None:
+        silent = any(j[0] in ('put', 'select') for j in jobs)     # these monitors look at output operations
+    merged = with_silent_ops(jobs) if silent else None
+    for j, (name, param, obs, case) in enumerate(jobs):
+        if merged is not None:
+            conv = merged[j]
+        else:
+            conv = tracelevel.convert(obs['trace'])
+            conv = [(o, a) for o, a in conv if a is not None and not o.startswith('?')]
         reqs.append(monitor_requests(name, param, conv))
         metas.append((obs, case, conv))
     reps = model_batch(reqs)
